@@ -31,6 +31,7 @@ META = {
 META["technique"] += '; must-pass-through of the cache-hit rebinding (shared with C14.R2)'
 META["level_text"] += ' Also decided (R2b): the one in-place update of a shared Template (cache-hit global_data rebinding, a known finding) is unconditional on every path to the hit.'
 META["technique"] += "; declared-type lint for order-sensitive consumption of sets (hash-seed dependent order)"
+META["technique"] += '; module-level stateful instances driven from functions; constructor-parameter forwarding of the caching loaders'
 META["level_text"] += " Also decided (R6, R7): hash() is used only inside __hash__, and no set/frozenset-typed expression is consumed in iteration order outside sorted() (both would make a render depend on PYTHONHASHSEED)."
 
 MUTATORS = {"append", "extend", "insert", "pop", "remove", "clear", "sort", "reverse", "update", "setdefault", "popitem", "add", "discard", "appendleft", "popleft", "move_to_end", "__setitem__", "__delitem__", "difference_update", "intersection_update", "symmetric_difference_update"}
@@ -167,6 +168,39 @@ def run(prog: Program, res: Result) -> None:  # noqa: PLR0912, PLR0915
                 fi = prog.enclosing_function(mod, n)
                 res.fail("C09.R1", file=mod.relpath, line=n.lineno, qualname=fi.qualname if fi else "", construct=n, message="`global` statement: a function rebinds module state", what="no global statements")
     res.ok("C09.R1", "liquid2/**", "no module-level container is mutated from a function; no `global`", f"{n_glob} module-level bindings scanned")
+    # module-level *instances* of stateful liquid2 classes driven from a function: `_parser = StripParser()` shared by every call
+    n_inst = 0
+    for mod in prog.modules.values():
+        for gname, gv in mod.globals_.items():
+            if not (isinstance(gv, ast.Call) and isinstance(gv.func, ast.Name)):
+                continue
+            r_ = prog.resolve(mod, gv.func.id)
+            gci = r_ if hasattr(r_, "methods") else mod.classes.get(gv.func.id)
+            if gci is None or not hasattr(gci, "methods"):
+                continue
+            n_inst += 1
+            # methods of the class that write instance state (directly): anything but the constructor that stores to / mutates self.*
+            writers = set()
+            for mn, mf in gci.methods.items():
+                if mn == "__init__":
+                    continue
+                for x in ast.walk(mf.node):
+                    if (isinstance(x, (ast.Attribute, ast.Subscript)) and isinstance(x.ctx, ast.Store) and root_name(x) == "self") or (isinstance(x, ast.AugAssign) and root_name(x.target) == "self") or (isinstance(x, ast.Call) and isinstance(x.func, ast.Attribute) and x.func.attr in MUTATORS and root_name(x.func.value) == "self"):
+                        writers.add(mn)
+            if not writers:
+                continue
+            external_base = any(prog.resolve(mod, dotted(b) or "") is None or isinstance(prog.resolve(mod, dotted(b) or ""), str) for b in gci.node.bases)
+            for fi in mod.functions.values():
+                if gname in fi.params() or any(isinstance(x, ast.Name) and x.id == gname and isinstance(x.ctx, ast.Store) for x in ast.walk(fi.node)):
+                    continue
+                aliases = {gname} | {t.id for a in ast.walk(fi.node) if isinstance(a, ast.Assign) and isinstance(a.value, ast.Name) and a.value.id == gname for t in a.targets if isinstance(t, ast.Name)}
+                for c in ast.walk(fi.node):
+                    if isinstance(c, ast.Call) and isinstance(c.func, ast.Attribute) and isinstance(c.func.value, ast.Name) and c.func.value.id in aliases:
+                        m_ = c.func.attr
+                        if m_ in writers or (external_base and m_ not in gci.methods):
+                            res.fail("C09.R1", file=mod.relpath, line=c.lineno, qualname=fi.qualname, construct=f"{fi.qualname}: drives the module-level instance `{gname}` ({gci.name}.{m_})", message=f"{fi.qualname} calls `{norm(c, 50)}` on `{gname}`, a {gci.name} created once at import and shared by every call: {gci.name} keeps state between its method calls ({', '.join(sorted(writers))[:60]} write self.*), so what one render left behind (an unclosed <script>, a half-consumed buffer) decides what the next one produces", what=f"module-level instance {gname} is not driven from a function")
+                            break
+    res.stats["module_level_instances"] = n_inst
 
     # ------------------------------------------------------------------ R2 who-may-write
     res.rule("C09.R2", "no store/mutation on a shared object (Node, Expression, Tag, Template, Environment, loader, filter object, class attribute) outside construction/registration; the loader cache is the one sanctioned shared store")
@@ -204,6 +238,10 @@ def run(prog: Program, res: Result) -> None:  # noqa: PLR0912, PLR0915
     from checks.shared import check_uptodate_is_bool
 
     check_uptodate_is_bool(prog, res, "C09.R11")
+    res.rule("C09.R12", "which template a name gives depends on the load's own namespace, not on who loaded the name first: every caching loader hands namespace_key / auto_reload / capacity to CachingLoaderMixin.__init__ as given - a dropped namespace_key makes all namespaces share one cache slot per name (shared with C14.R7)")
+    from checks.shared import check_loader_ctor_forwarding
+
+    check_loader_ctor_forwarding(prog, res, "C09.R12")
 
     # ------------------------------------------------------------------ R3 fresh per-render state
     res.rule("C09.R3", "RenderContext.__init__ builds locals/counters/tag_namespace/loops from fresh literals; Template.render[_async] constructs a new RenderContext and buffer on every call; class-level containers handed to instances are never mutated")
